@@ -2,9 +2,14 @@
 
 package main
 
-import "github.com/mithrandie/csvq/lib/value"
+import (
+	"reflect"
+
+	"github.com/mithrandie/csvq/lib/value"
+)
 
 const poisonAvailable = false
 
-func poisonOf(value.Primary) string  { return "" }
-func poisonTexts() map[string]string { return nil }
+func poisonOf(value.Primary) string          { return "" }
+func poisonTexts() map[string]string         { return nil }
+func poisonInTree(reflect.Value, int) string { return "" }
